@@ -20,6 +20,7 @@ type Violation struct {
 	kind  string // assert | panic
 	trace []string
 	model map[string]uint64
+	rats  map[string]string // values of Real-sorted variables ("num/den")
 	order []string
 }
 
@@ -287,6 +288,12 @@ func (e *Engine) violation(st *State, kind, id string) {
 	vals := e.sol.Values(st.named)
 	for i, t := range st.named {
 		v.model[t.name] = vals[i]
+		if t.w == -1 {
+			if v.rats == nil {
+				v.rats = map[string]string{}
+			}
+			v.rats[t.name] = LastRats[t.name]
+		}
 		v.order = append(v.order, t.name)
 	}
 	e.violations[key] = v
@@ -1651,7 +1658,10 @@ func (e *Engine) intrinsic(st *State, fv Func, args []Value, x *ssa.Call) bool {
 		set(st.fresh(strOf(args[0]), 0))
 	case short == "vndFNew":
 		st.nvars++
-		set(RVar(fmt.Sprintf("%s#%d", strOf(args[0]), st.nvars)))
+		rv := RVar(fmt.Sprintf("%s#%d", strOf(args[0]), st.nvars))
+		st.named = append(st.named, rv)
+		st.tags = append(st.tags, strOf(args[0]))
+		set(rv)
 	case short == "vndFInt":
 		set(RInt(sext64(args[0].(*Term).val, 64)))
 	case short == "vndFAdd":
@@ -1875,6 +1885,12 @@ func (e *Engine) intrinsic(st *State, fv Func, args []Value, x *ssa.Call) bool {
 					vals := e.sol.Values(st.named)
 					for i, t := range st.named {
 						v.model[t.name] = vals[i]
+						if t.w == -1 {
+							if v.rats == nil {
+								v.rats = map[string]string{}
+							}
+							v.rats[t.name] = LastRats[t.name]
+						}
 						v.order = append(v.order, t.name)
 					}
 					e.coverModels[id] = v
